@@ -284,6 +284,7 @@ def run(prog: Program, col: Collector, refs: Refs, cat: Catalogue, rule_log: str
 
 
 # ------------------------------------------------------------------ R15.10 scalar / array agreement at special values
+NAN_FREE_UNARY = {"SIGMOID", "TANH", "EXP", "ATAN"}
 _DOMAIN = {  # input classes inside the op's domain, per argument (default: all of the extended reals)
     "log": [[ZERO, POS, "PINF"]], "log1p": [[ZERO, POS, "PINF"]], "sqrt": [[ZERO, POS, "PINF"]], "reciprocal": [[NEG, POS, "PINF", NINF]],
     "truediv": [None, [NEG, POS, "PINF", NINF]], "safediv": [[NEG, ZERO, POS], [ZERO, POS]], "safesub": [sorted(LOGDOM), sorted(LOGDOM)],
@@ -296,6 +297,7 @@ def run_agreement(prog: Program, col: Collector, refs: Refs, cat: Catalogue, rul
     values: for every unary/binary op whose scalar and array implementations the interpreter can both follow, and every input
     class combination of its domain on which neither raises, the two abstract results must have a class in common."""
     col.rule(rule, "scalar and array implementations of an op agree at the special values (-inf, 0, +inf) of its domain", floor=3)
+    from .. import axioms
     node = ast.parse("op(x)").body[0].value
     allc = [NINF, NEG, ZERO, POS, "PINF"]
     compared = 0
@@ -308,7 +310,7 @@ def run_agreement(prog: Program, col: Collector, refs: Refs, cat: Catalogue, rul
         for backend in BACKENDS:
             if backend not in prog.modules:
                 continue
-            n_cmp, bad = 0, None
+            n_cmp, bad, nan_bad = 0, None, None
             for combo in itertools.product(*dom):
                 res = {}
                 for arr in (False, True):
@@ -319,11 +321,20 @@ def run_agreement(prog: Program, col: Collector, refs: Refs, cat: Catalogue, rul
                         v = V("opaque")
                     res[arr] = (v, bool(it.raised))
                 (sv_, sr), (av_, ar_) = res[False], res[True]
+                # a bounded / monotone unary function has a limit at both infinities: no implementation may answer NaN there
+                if ar == 1 and axioms.identify(cat, op) in NAN_FREE_UNARY:
+                    for arr_, (v_, raised_) in res.items():
+                        if v_.kind == "num" and NAN in v_.cls and not raised_ and nan_bad is None:
+                            nan_bad = (combo, arr_, v_)
                 if sv_.kind != "num" or av_.kind != "num" or sr or ar_:
                     continue
                 n_cmp += 1
                 if not (sv_.cls & av_.cls) and bad is None:
                     bad = (combo, sv_, av_)
+            if nan_bad is not None:
+                combo_, arr_, v_ = nan_bad
+                col.violation(f"{op.fq}::limits [{backend.split('.')[1]}]", f"`{op.name}` on {'an array' if arr_ else 'a scalar'} of class {combo_[0]} may be NaN ({_fmt(v_.cls)}): the function has "
+                              "a finite limit there (sigmoid(+inf) = 1, sigmoid(-inf) = 0); an implementation that forms inf/inf or inf-inf on the way loses it", op.module.loc(op.node))
             if not n_cmp:
                 continue
             compared += 1
